@@ -21,7 +21,11 @@
 (* Order = sequence of threads whose context lists the propagator walks.    *)
 (***************************************************************************)
 EXTENDS Naturals, Sequences, FiniteSets, TLC
-CONSTANTS Cancellers, Tgt, Order, FIXPM, HINTSC
+CONSTANTS Cancellers, Tgt, Order, FIXPM, HINTSC,
+          ROOTCOPY,      \* fact probed from the running code: "always" = the no-grand-ancestor branch stores the parent's state it loaded whatever it is,
+                         \* "set-only" = it stores only a set state (finding 6.16)
+          BindTo         \* the context C is bound under: "P" (which has the grand-ancestor G: epoch snapshot + re-check under pm) or "G" (a parentless context:
+                         \* bind_to_impl registers the new context first and then copies the parent's state - no epoch check is needed in that order)
 Ctxs == {"G", "P", "S", "C"}
 Thr == {"X", "B", "A1", "A2"}
 (* --algorithm ctx {
@@ -75,20 +79,27 @@ Thr == {"X", "B", "A1", "A2"}
     variables snap = 0, v = 0, e = 0;
   {
     b0: assert cstate = "created";                                                  \* my_state.load(acquire)
-    b1: cstate := "locked"; parent["C"] := "P";                                     \* CAS created -> locked ; my_parent = ...
-    b2: if (hint["P"] = 1) { goto b4 };                                             \* parent->my_may_have_children.load
-    b3: hint["P"] := 1;                                                             \* .store(relaxed)  ("full fence is below")
+    b1: cstate := "locked"; parent["C"] := BindTo;                                  \* CAS created -> locked ; my_parent = ...
+    b2: if (hint[BindTo] = 1) { goto bx };                                          \* parent->my_may_have_children.load
+    b3: hint[BindTo] := 1;                                                          \* .store(relaxed)  ("full fence is below")
+    bx: if (parent[BindTo] = "none") { goto r7 } else { goto b4 };                  \* if (ctx.my_parent->my_parent) ... else ...
     b4: snap := lepoch["X"];                                                        \* parent's list epoch (acquire)
-    b5: v := cancel["P"];                                                           \* speculative copy: load
+    b5: v := cancel[BindTo];                                                        \* speculative copy: load
     b6: cancel["C"] := v;                                                           \*                   store
     b7: await lm["B"] = "free"; lm["B"] := "B"; list["B"] := <<"C">> \o list["B"];  \* register_with: push_front under the list mutex
     b8: lm["B"] := "free";
     b9: e := gepoch;                                                                \* global epoch (relaxed)
         if (snap = e) { goto b14 };
     b10: await pm = "free"; pm := "B";                                              \* slow path under the_context_state_propagation_mutex
-    b11: v := cancel["P"];
+    b11: v := cancel[BindTo];
     b12: cancel["C"] := v;
-    b13: pm := "free";
+    b13: pm := "free"; goto b14;
+    \* no grand-ancestors: a concurrent propagation can only originate from the parent itself - register first, then copy its state
+    r7: await lm["B"] = "free"; lm["B"] := "B"; list["B"] := <<"C">> \o list["B"];  \* register_with: push_front under the list mutex (issues a full fence)
+    r8: lm["B"] := "free";
+    r5: v := cancel[BindTo];                                                        \* parent's state: load
+        if (ROOTCOPY = "set-only" /\ v = 0) { goto b14 };                           \* (repaired code: only a set state is copied)
+    r6: cancel["C"] := v;                                                           \* store (pinned code: unconditionally - a stale 0 can overwrite a propagated 1)
     b14: cstate := "bound";                                                         \* my_state.store(bound, release)
     b15: assert cstate = "bound";                                                   \* spin_wait_while_eq(my_state, locked)
   }
@@ -294,30 +305,37 @@ A(self) == c1(self) \/ c2(self) \/ c3(self) \/ c4(self) \/ c4p(self)
 
 b0 == /\ pc["B"] = "b0"
       /\ Assert(cstate = "created", 
-                "Failure of assertion at line 77, column 9.")
+                "Failure of assertion at line 81, column 9.")
       /\ pc' = [pc EXCEPT !["B"] = "b1"]
       /\ UNCHANGED << cancel, hint, parent, cstate, list, lepoch, gepoch, tlm, 
                       pm, lm, ret, old, k, j, cx, todo, snap, v, e >>
 
 b1 == /\ pc["B"] = "b1"
       /\ cstate' = "locked"
-      /\ parent' = [parent EXCEPT !["C"] = "P"]
+      /\ parent' = [parent EXCEPT !["C"] = BindTo]
       /\ pc' = [pc EXCEPT !["B"] = "b2"]
       /\ UNCHANGED << cancel, hint, list, lepoch, gepoch, tlm, pm, lm, ret, 
                       old, k, j, cx, todo, snap, v, e >>
 
 b2 == /\ pc["B"] = "b2"
-      /\ IF hint["P"] = 1
-            THEN /\ pc' = [pc EXCEPT !["B"] = "b4"]
+      /\ IF hint[BindTo] = 1
+            THEN /\ pc' = [pc EXCEPT !["B"] = "bx"]
             ELSE /\ pc' = [pc EXCEPT !["B"] = "b3"]
       /\ UNCHANGED << cancel, hint, parent, cstate, list, lepoch, gepoch, tlm, 
                       pm, lm, ret, old, k, j, cx, todo, snap, v, e >>
 
 b3 == /\ pc["B"] = "b3"
-      /\ hint' = [hint EXCEPT !["P"] = 1]
-      /\ pc' = [pc EXCEPT !["B"] = "b4"]
+      /\ hint' = [hint EXCEPT ![BindTo] = 1]
+      /\ pc' = [pc EXCEPT !["B"] = "bx"]
       /\ UNCHANGED << cancel, parent, cstate, list, lepoch, gepoch, tlm, pm, 
                       lm, ret, old, k, j, cx, todo, snap, v, e >>
+
+bx == /\ pc["B"] = "bx"
+      /\ IF parent[BindTo] = "none"
+            THEN /\ pc' = [pc EXCEPT !["B"] = "r7"]
+            ELSE /\ pc' = [pc EXCEPT !["B"] = "b4"]
+      /\ UNCHANGED << cancel, hint, parent, cstate, list, lepoch, gepoch, tlm, 
+                      pm, lm, ret, old, k, j, cx, todo, snap, v, e >>
 
 b4 == /\ pc["B"] = "b4"
       /\ snap' = lepoch["X"]
@@ -326,7 +344,7 @@ b4 == /\ pc["B"] = "b4"
                       pm, lm, ret, old, k, j, cx, todo, v, e >>
 
 b5 == /\ pc["B"] = "b5"
-      /\ v' = cancel["P"]
+      /\ v' = cancel[BindTo]
       /\ pc' = [pc EXCEPT !["B"] = "b6"]
       /\ UNCHANGED << cancel, hint, parent, cstate, list, lepoch, gepoch, tlm, 
                       pm, lm, ret, old, k, j, cx, todo, snap, e >>
@@ -367,7 +385,7 @@ b10 == /\ pc["B"] = "b10"
                        lm, ret, old, k, j, cx, todo, snap, v, e >>
 
 b11 == /\ pc["B"] = "b11"
-       /\ v' = cancel["P"]
+       /\ v' = cancel[BindTo]
        /\ pc' = [pc EXCEPT !["B"] = "b12"]
        /\ UNCHANGED << cancel, hint, parent, cstate, list, lepoch, gepoch, tlm, 
                        pm, lm, ret, old, k, j, cx, todo, snap, e >>
@@ -384,6 +402,34 @@ b13 == /\ pc["B"] = "b13"
        /\ UNCHANGED << cancel, hint, parent, cstate, list, lepoch, gepoch, tlm, 
                        lm, ret, old, k, j, cx, todo, snap, v, e >>
 
+r7 == /\ pc["B"] = "r7"
+      /\ lm["B"] = "free"
+      /\ lm' = [lm EXCEPT !["B"] = "B"]
+      /\ list' = [list EXCEPT !["B"] = <<"C">> \o list["B"]]
+      /\ pc' = [pc EXCEPT !["B"] = "r8"]
+      /\ UNCHANGED << cancel, hint, parent, cstate, lepoch, gepoch, tlm, pm, 
+                      ret, old, k, j, cx, todo, snap, v, e >>
+
+r8 == /\ pc["B"] = "r8"
+      /\ lm' = [lm EXCEPT !["B"] = "free"]
+      /\ pc' = [pc EXCEPT !["B"] = "r5"]
+      /\ UNCHANGED << cancel, hint, parent, cstate, list, lepoch, gepoch, tlm, 
+                      pm, ret, old, k, j, cx, todo, snap, v, e >>
+
+r5 == /\ pc["B"] = "r5"
+      /\ v' = cancel[BindTo]
+      /\ IF ROOTCOPY = "set-only" /\ v' = 0
+            THEN /\ pc' = [pc EXCEPT !["B"] = "b14"]
+            ELSE /\ pc' = [pc EXCEPT !["B"] = "r6"]
+      /\ UNCHANGED << cancel, hint, parent, cstate, list, lepoch, gepoch, tlm, 
+                      pm, lm, ret, old, k, j, cx, todo, snap, e >>
+
+r6 == /\ pc["B"] = "r6"
+      /\ cancel' = [cancel EXCEPT !["C"] = v]
+      /\ pc' = [pc EXCEPT !["B"] = "b14"]
+      /\ UNCHANGED << hint, parent, cstate, list, lepoch, gepoch, tlm, pm, lm, 
+                      ret, old, k, j, cx, todo, snap, v, e >>
+
 b14 == /\ pc["B"] = "b14"
        /\ cstate' = "bound"
        /\ pc' = [pc EXCEPT !["B"] = "b15"]
@@ -392,13 +438,13 @@ b14 == /\ pc["B"] = "b14"
 
 b15 == /\ pc["B"] = "b15"
        /\ Assert(cstate = "bound", 
-                 "Failure of assertion at line 93, column 10.")
+                 "Failure of assertion at line 104, column 10.")
        /\ pc' = [pc EXCEPT !["B"] = "Done"]
        /\ UNCHANGED << cancel, hint, parent, cstate, list, lepoch, gepoch, tlm, 
                        pm, lm, ret, old, k, j, cx, todo, snap, v, e >>
 
-B == b0 \/ b1 \/ b2 \/ b3 \/ b4 \/ b5 \/ b6 \/ b7 \/ b8 \/ b9 \/ b10 \/ b11
-        \/ b12 \/ b13 \/ b14 \/ b15
+B == b0 \/ b1 \/ b2 \/ b3 \/ bx \/ b4 \/ b5 \/ b6 \/ b7 \/ b8 \/ b9 \/ b10
+        \/ b11 \/ b12 \/ b13 \/ r7 \/ r8 \/ r5 \/ r6 \/ b14 \/ b15
 
 (* Allow infinite stuttering to prevent deadlock on termination. *)
 Terminating == /\ \A self \in ProcSet: pc[self] = "Done"
